@@ -92,7 +92,7 @@ def crash_key(prop, cr):
 def san_env(wd, leaks=False, extra=None):
     env = dict(os.environ)
     lp = os.path.join(wd, "san")
-    env["ASAN_OPTIONS"] = "abort_on_error=0:halt_on_error=1:detect_leaks=%d:log_path=%s:exitcode=86:allocator_may_return_null=1:detect_stack_use_after_return=0" % (1 if leaks else 0, lp)
+    env["ASAN_OPTIONS"] = "abort_on_error=0:halt_on_error=1:detect_leaks=%d:log_path=%s:exitcode=86:allocator_may_return_null=1:detect_stack_use_after_return=0:quarantine_size_mb=8:malloc_context_size=8" % (1 if leaks else 0, lp)
     env["UBSAN_OPTIONS"] = "print_stacktrace=1:halt_on_error=1:log_path=%s" % lp
     env["LSAN_OPTIONS"] = "exitcode=23:log_path=%s" % lp
     if extra:
